@@ -5,6 +5,7 @@ package main
 
 import (
 	"fmt"
+	"go/token"
 	"go/types"
 	"strings"
 
@@ -134,6 +135,16 @@ func (sa *Safe) callOne(fr *frame, st *State, x *ssa.Call, callee *ssa.Function,
 	if callee.Pkg != nil && IsRepoPkg(callee.Pkg.Pkg) && callee.Blocks != nil {
 		for _, f := range sa.stack {
 			if f == callee {
+				if fr.fn == callee && rankedSelfRecursion(callee, x) {
+					// R-rec: the recursive call passes param-1 of an unsigned parameter under the guard param != 0
+					sa.havocArgs(st, args)
+					fr.at(x)
+					li := sa.Loops[SSAFuncName(callee)+"#rec"]
+					if li == nil {
+						sa.Loops[SSAFuncName(callee)+"#rec"] = &LoopInfo{Fn: SSAFuncName(callee), Pos: x.Pos(), Rule: "R-rec", OK: true}
+					}
+					return sa.unknownResult(fr, st, callee.Signature)
+				}
 				sa.unsup(x.Pos(), "recursion through %s is not supported by the ranking rules", callee.String())
 				sa.havocArgs(st, args)
 				fr.at(x)
@@ -155,6 +166,9 @@ func (sa *Safe) callOne(fr *frame, st *State, x *ssa.Call, callee *ssa.Function,
 		sa.stack = append(sa.stack, callee)
 		res := sa.analyzeFunc(child, args, st)
 		sa.stack = sa.stack[:len(sa.stack)-1]
+		if !res.none && res.st != nil {
+			sa.pruneFacts(res.st, res.vals)
+		}
 		return res
 	}
 	fr.at(x)
@@ -634,4 +648,92 @@ func safePureCallee(f *ssa.Function) bool {
 		return f.Name() == "Printf" || f.Name() == "Println"
 	}
 	return false
+}
+
+// rankedSelfRecursion: call f(..., p-1, ...) inside f, where p is an unsigned parameter and the
+// call is dominated by the false edge of `p == 0` (or true edge of p != 0 / p > 0).
+func rankedSelfRecursion(fn *ssa.Function, call *ssa.Call) bool {
+	for i, a := range call.Call.Args {
+		sub, ok := a.(*ssa.BinOp)
+		if !ok || sub.Op != token.SUB || i >= len(fn.Params) || sub.X != ssa.Value(fn.Params[i]) {
+			continue
+		}
+		c, ok := sub.Y.(*ssa.Const)
+		if !ok || c.Value == nil || c.Int64() != 1 {
+			continue
+		}
+		if b, ok := fn.Params[i].Type().Underlying().(*types.Basic); !ok || b.Info()&types.IsUnsigned == 0 {
+			continue
+		}
+		// guard
+		for _, b := range fn.Blocks {
+			iff, ok := b.Instrs[len(b.Instrs)-1].(*ssa.If)
+			if !ok {
+				continue
+			}
+			cond, ok := iff.Cond.(*ssa.BinOp)
+			if !ok || cond.X != ssa.Value(fn.Params[i]) {
+				continue
+			}
+			z, ok := cond.Y.(*ssa.Const)
+			if !ok || z.Value == nil || z.Int64() != 0 {
+				continue
+			}
+			var stay *ssa.BasicBlock
+			switch cond.Op {
+			case token.EQL:
+				stay = b.Succs[1]
+			case token.NEQ, token.GTR:
+				stay = b.Succs[0]
+			}
+			if stay != nil && stay.Dominates(call.Block()) && len(stay.Preds) == 1 {
+				return true
+			}
+		}
+	}
+	return false
+}
+
+// pruneFacts drops linear facts that mention unknowns local to activations that have returned
+// (they can no longer be related to anything the caller sees), except unknowns occurring in
+// the returned values.
+func (sa *Safe) pruneFacts(st *State, vals []AVal) {
+	keep := map[atomID]bool{}
+	var mark func(v AVal)
+	mark = func(v AVal) {
+		for _, l := range []*Lin{v.Lin, v.Len} {
+			if l != nil {
+				for a := range l.T {
+					keep[a] = true
+				}
+			}
+		}
+		for _, e := range v.Elts {
+			mark(e)
+		}
+		for _, f := range v.Fields {
+			mark(f)
+		}
+		if v.Inner != nil {
+			mark(*v.Inner)
+		}
+	}
+	for _, v := range vals {
+		mark(v)
+	}
+	onStack := map[*ssa.Function]bool{}
+	for _, f := range sa.stack {
+		onStack[f] = true
+	}
+	for k, f := range st.facts {
+		for a := range f.T {
+			if keep[a] {
+				continue
+			}
+			if wi, ok := sa.u.atoms[a].Where.(ssa.Instruction); ok && wi != nil && wi.Parent() != nil && !onStack[wi.Parent()] {
+				delete(st.facts, k)
+				break
+			}
+		}
+	}
 }
